@@ -8,12 +8,49 @@ DOCOPTS = [[], ["--no-show-locs"], ["--no-corpus-path", "--no-parameter-names"],
            ["--short-locs"], ["--no-architecture"]]
 
 
+_OPEN = re.compile(rb"^\s*<(class-decl|union-decl)\b([^>]*?)(/?)>\s*$")
+_CLOSE = re.compile(rb"^\s*</(class-decl|union-decl)>\s*$")
+
+
+def strip_declonly_memfns(doc):
+    """(document without the <member-function> elements of declaration-only classes / unions, number of lines removed) -- a fact used only to
+    classify a failing case (known finding C03-member-function-of-declaration-only-class)"""
+    out, stack, removed, skipping = [], [], 0, False
+    for ln in doc.splitlines():
+        if skipping:
+            removed += 1
+            if ln.strip() == b"</member-function>":
+                skipping = False
+            continue
+        m = _OPEN.match(ln)
+        if m and not m.group(3):
+            stack.append(b"is-declaration-only='yes'" in m.group(2))
+        elif _CLOSE.match(ln) and stack:
+            stack.pop()
+        elif ln.strip().startswith(b"<member-function") and stack and stack[-1]:
+            skipping = not ln.strip().endswith(b"/>")
+            removed += 1
+            continue
+        out.append(ln)
+    # a class left without children is written as an empty element
+    res = []
+    for ln in out:
+        if res and _CLOSE.match(ln):
+            m = _OPEN.match(res[-1])
+            if m and not m.group(3) and b"is-declaration-only='yes'" in m.group(2):
+                res[-1] = res[-1].rstrip()[:-1] + b"/>"
+                continue
+        res.append(ln)
+    return b"\n".join(res), removed
+
+
 def main():
     c = vf.Check("C03", "exploration")
     vf.build("hooks")
     c.model("Abi.tla", "AbiSmall.cfg" if c.thorough else "AbiSmallQuick.cfg")
     abilint, abidw = vf.tool("hooks", "abilint"), vf.tool("hooks", "abidw")
-    cases = campaign.programs(c, 500 if c.thorough else 50)
+    cases = campaign.programs(c, 500 if c.thorough else 50) + campaign.programs(c, 200 if c.thorough else 20, name="gencxx", Lang='"cxx"')
+    cases += campaign.sample_programs()          # idioms outside Abi.tla's vocabulary (naming typedefs, anonymous members, bit-fields, C++ samples ...)
     comps = ["gcc", "clang", "gcc-dwarf4"] if c.thorough else ["gcc", "clang"]
     styles = [None, {"tus": 3, "seed": 5, "statics": 1}]
 
@@ -39,7 +76,9 @@ def main():
             open(abi2, "wb").write(rl.out)
             rl2 = vf.run([abilint, abi2], env=env, binary=True)
             mask = lambda b: sorted(re.sub(rb"type-id-\d+", b"type-id-N", ln) for ln in b.splitlines())
-            evs.append({"e": "Fixpoint", "case": idx, "comp": comp, "style": sn, "opts": " ".join(o), "h1": vf.sha(doc), "h2": vf.sha(rl.out),
+            stripped, nstripped = strip_declonly_memfns(doc)
+            evs.append({"e": "Fixpoint", "case": idx, "comp": comp, "style": sn, "opts": " ".join(o), "declOnlyMemFnLines": nstripped,
+                        "sameLinesModuloIdsAndDeclOnlyMemFns": nstripped > 0 and mask(stripped) == mask(rl.out), "h1": vf.sha(doc), "h2": vf.sha(rl.out),
                         "h3": vf.sha(rl2.out), "hasVoid": b"<type-decl name='void'" in doc, "sameLinesModuloIds": mask(doc) == mask(rl.out),
                         "len1": len(doc), "len2": len(rl.out), "lintexit": rl.exit, "diffexit": rd.exit, "ret": campaign.retof(rl, rd),
                         "diffout": rd.out[:300]})
@@ -54,7 +93,7 @@ def main():
             events += r
     c.cov["evaluations"] = len(events)
     c.cov["distinct_nontrivial"] = len({e["h1"] for e in events if e["len1"] > 1500})
-    c.cov["rule"] = "abidw documents of TLC-generated programs (x compilers x 1-TU/3-TU renderings x 7 abidw option sets), abilint D vs D byte-wise and abilint --diff D; non-trivial = distinct documents larger than 1500 bytes"
+    c.cov["rule"] = "abidw documents of TLC-generated C and C++ programs and of the hand-written samples of render/c_samples, render/cxx_samples (x compilers x 1-TU/3-TU renderings x 7 abidw option sets), abilint D vs D byte-wise and abilint --diff D; non-trivial = distinct documents larger than 1500 bytes"
     for e in events[:3]:
         c.sample(e)
     case_of = lambda ev: campaign.case_files(os.path.join(c.workdir, "p%d" % ev["case"]))
